@@ -301,3 +301,45 @@ Proof.
   rewrite Forall_forall in F. destruct (F p I) as (W & Bp).
   apply extract_sound_now in E; auto. destruct E as (E & L4). eauto.
 Qed.
+
+(* ---------------- the same for legal (not necessarily masked) prefixes ---------------- *)
+Lemma bytes_ok_embed_legal p v4 :
+  legal_prefix p -> bytes_ok (n_ip p) -> length v4 = 4%nat -> bytes_ok v4 -> bytes_ok (embed p v4).
+Proof.
+  intros L Bp L4 B4. rewrite <- mask_prefix_embed by exact L.
+  apply bytes_ok_embed; auto; [apply mask_prefix_wf | apply mask_prefix_bytes_ok]; auto.
+Qed.
+Lemma ptr_roundtrip_legal p v4 :
+  legal_prefix p -> bytes_ok (n_ip p) -> length v4 = 4%nat -> bytes_ok v4 ->
+  match parse_ip6_arpa (arpa_name (embed p v4)) with
+  | Some addr => extract cur p addr
+  | None => None
+  end = Some v4.
+Proof.
+  intros L Bp L4 B4. rewrite parse_arpa_name.
+  - apply extract_embed_legal; auto.
+  - apply embed_layout_legal; auto.
+  - apply bytes_ok_embed_legal; auto.
+Qed.
+Lemma ptr_target_roundtrip_legal c cp v4 :
+  c_prefixes c = [cp] -> legal_prefix (cp_net cp) -> bytes_ok (n_ip (cp_net cp)) ->
+  length v4 = 4%nat -> bytes_ok v4 -> should_exclude_a c v4 cp = false ->
+  ptr_target cur c (lower (arpa_name (embed (cp_net cp) v4))) = Some v4.
+Proof.
+  intros Hc L Bp L4 B4 X.
+  assert (bytes_ok (embed (cp_net cp) v4)) as Be by (apply bytes_ok_embed_legal; auto).
+  unfold ptr_target. rewrite lower_arpa_name by exact Be.
+  rewrite parse_arpa_name; [| apply embed_layout_legal; auto | exact Be ].
+  assert (extract cur (cp_net cp) (embed (cp_net cp) v4) = Some v4) as E by (apply extract_embed_legal; auto).
+  rewrite Hc. cbn [ptr_find]. rewrite (extract_contains _ _ _ _ E). cbn [negb]. rewrite E, X. reflexivity.
+Qed.
+Lemma ptr_find_embedding_legal c addr ps v4 :
+  Forall (fun p => legal_prefix (cp_net p) /\ bytes_ok (n_ip (cp_net p))) ps ->
+  length addr = 16%nat -> bytes_ok addr ->
+  ptr_find cur c addr ps = Some v4 ->
+  exists p, In p ps /\ addr = embed (cp_net p) v4 /\ length v4 = 4%nat /\ should_exclude_a c v4 p = false.
+Proof.
+  intros F L B H. apply ptr_find_sound in H as (p & I & E & X).
+  rewrite Forall_forall in F. destruct (F p I) as (W & Bp).
+  apply extract_sound_legal in E; auto. destruct E as (E & L4). eauto.
+Qed.
